@@ -246,6 +246,7 @@ var keywordTokenTypes = map[string]models.TokenType{
 type Tokenizer struct {
 	input      []byte              // Input SQL bytes (zero-copy reference)
 	pos        Position            // Current scanning position
+	tokenStart Position            // Start of the token last returned by nextToken (after skipped comments)
 	lineStart  Position            // Start of current line
 	lineStarts []int               // Byte offsets of line starts (for position tracking)
 	line       int                 // Current line number (1-based)
@@ -472,8 +473,6 @@ func (t *Tokenizer) Tokenize(input []byte) ([]models.TokenWithSpan, error) {
 				return
 			}
 
-			startPos := t.pos
-
 			token, err := t.nextToken()
 			if err != nil {
 				// nextToken returns structured errors, pass through directly
@@ -483,7 +482,7 @@ func (t *Tokenizer) Tokenize(input []byte) ([]models.TokenWithSpan, error) {
 
 			tw := models.TokenWithSpan{
 				Token: token,
-				Start: t.toSQLPosition(startPos),
+				Start: t.toSQLPosition(t.tokenStart),
 				End:   t.getCurrentPosition(),
 			}
 			if t.logger != nil && t.logger.Enabled(context.Background(), slog.LevelDebug) {
@@ -612,8 +611,6 @@ func (t *Tokenizer) TokenizeContext(ctx context.Context, input []byte) ([]models
 				return
 			}
 
-			startPos := t.pos
-
 			token, err := t.nextToken()
 			if err != nil {
 				// nextToken returns structured errors, pass through directly
@@ -623,7 +620,7 @@ func (t *Tokenizer) TokenizeContext(ctx context.Context, input []byte) ([]models
 
 			tw := models.TokenWithSpan{
 				Token: token,
-				Start: t.toSQLPosition(startPos),
+				Start: t.toSQLPosition(t.tokenStart),
 				End:   t.getCurrentPosition(),
 			}
 			if t.logger != nil && t.logger.Enabled(context.Background(), slog.LevelDebug) {
@@ -691,6 +688,10 @@ func (t *Tokenizer) skipWhitespace() {
 
 // nextToken picks out the next token from the input
 func (t *Tokenizer) nextToken() (models.Token, error) {
+	// Remember where the token that is actually returned starts: a comment in
+	// front of it is skipped by re-entering nextToken, and the token's span must
+	// not begin at the comment.
+	t.tokenStart = t.pos
 	if t.pos.Index >= len(t.input) {
 		return models.Token{Type: models.TokenTypeEOF}, nil
 	}
